@@ -264,19 +264,23 @@ func (te *tableEngine) playersAutoIn() {
 		}
 	})
 	te.rg.OnCompleted(func(rg *syncsaga.ReadyGroup) {
-		isInCount := 0
-		alivePlayers := 0
-		for playerIdx, player := range te.table.State.PlayerStates {
-			// 如果時間到了還沒有入座則自動入座
+		// 如果時間到了還沒有入座則自動入座
+		// (PlayerJoin waits for the engine lock and notifies listeners: players may leave meanwhile,
+		// so the list must not be indexed by positions taken before the call)
+		for _, player := range te.table.State.PlayerStates {
 			if !player.IsIn {
 				te.PlayerJoin(player.PlayerID)
 			}
+		}
 
-			if te.table.State.PlayerStates[playerIdx].IsIn {
+		isInCount := 0
+		alivePlayers := 0
+		for _, player := range te.table.State.PlayerStates {
+			if player.IsIn {
 				isInCount++
 			}
 
-			if te.table.State.PlayerStates[playerIdx].Bankroll > 0 {
+			if player.Bankroll > 0 {
 				alivePlayers++
 			}
 		}
